@@ -48,18 +48,21 @@
       result 0.  Resuming from [ck] with ANY calls list and call counter gives a result related by
       [out_eqv] to resuming from [cj]: same UB code, or same call count, pairwise identical events and
       callback answers, textually identical checkpoints; in particular [skipn j cs] reproduces the
-      original run up to text.  Hypotheses: [wf_vchk c = true] / [wf_mchk c = true] (C05's
-      well-formedness of the checkpoint being written: array lengths match the stored counts) and the
-      callback answers equally on textually identical checkpoints ([C03_builtin_callback_respects_text]
-      proves this for the built-in callback).
+      original run up to text.  Hypotheses: the (prepared) INITIAL checkpoint is well formed in the
+      sense of C05 ([wf_vchk (vchk_dimensions c0 d) = true] / [wf_mchk c0 = true]: array lengths match
+      the stored counts; true for every fresh checkpoint, [C03_fresh_wf]) - well-formedness of the
+      checkpoint being written then follows ([C03_reachable_wf]: iterations only produce well-formed
+      results) - and the callback answers equally on textually identical checkpoints
+      ([C03_builtin_callback_respects_text] proves this for the built-in callback).
     - [C15_rollback_respects_text]: rollback maps textually identical checkpoints to textually identical
       checkpoints (or the same error); [C15_rollback_rollback]: rolling back to k1 and then to
       k2 <= k1 equals rolling back to k2 directly.  With these two, targets k < m (inside the history
       the run was resumed from) reduce to the statement about the earlier run, and arbitrary histories
       run / reload / rollback / resume compose.
 
-    NOT PROVED HERE.  (1) That iteration results are well formed (the [wf_*] hypotheses of the reload
-    theorems) - it is a hypothesis.  (2) The decimal layer of the text (C05 part A); the text is the
+    NOT PROVED HERE.  (1) Well-formedness of the initial checkpoint of a run is a hypothesis of the reload
+    theorems (proved for fresh checkpoints and preserved by runs, see C03; for a checkpoint that was itself
+    read from a text it is C05's condition on that text).  (2) The decimal layer of the text (C05 part A); the text is the
     token list of Codec.v.  (3) Nothing is claimed for checkpoints whose generator list does not have
     |results| + 1 entries (not constructible through the public interface).
 
@@ -152,7 +155,7 @@ Theorem C15_rollback_after_reload_vegas : forall (K : Num) (L : Libm K) strm ps 
   (forall x y, vchk_eqv x y -> cb x = cb y) ->
   vegas_run L strm ps f d cb cs c0 idx = Ok (c, idx', ls) ->
   length (b_gens (vc_base c0)) = S (length (b_results (vc_base c0))) ->
-  wf_vchk c = true ->
+  wf_vchk (vchk_dimensions c0 d) = true ->
   forall j, j <= length ls ->
   let k := N.of_nat (length (b_results (vc_base c0)) + j) in
   let cj := nth j (chks _ _ (vchk_dimensions c0 d) ls) (vchk_dimensions c0 d) in
@@ -166,7 +169,7 @@ Theorem C15_rollback_after_reload_vegas : forall (K : Num) (L : Libm K) strm ps 
        exists c2 ls2, vegas_run L strm ps f d cb (skipn j cs) ck idxj = Ok (c2, idx', ls2) /\
          vchk_eqv c c2 /\ Forall2 (log_eqv _ _ vchk_eqv) (skipn j ls) ls2 /\
          ser_vchk digits10 c2 = ser_vchk digits10 c).
-Proof. exact (@c15_vegas_after_reload). Qed.
+Proof. exact (@c15_vegas_after_reload_wf). Qed.
 Print Assumptions C15_rollback_after_reload_vegas.
 
 (** multi-channel *)
@@ -197,7 +200,7 @@ Theorem C15_rollback_after_reload_multi_channel : forall (K : Num) (L : Libm K) 
   (forall x y, mchk_eqv x y -> cb x = cb y) ->
   mc_run L strm ps f mp d n cb cs c0 idx = Ok (c, idx', ls) ->
   length (b_gens (mc_base c0)) = S (length (b_results (mc_base c0))) ->
-  wf_mchk c = true ->
+  wf_mchk c0 = true ->
   forall j, j <= length ls ->
   let k := N.of_nat (length (b_results (mc_base c0)) + j) in
   let cj := nth j (chks _ _ (mchk_channels c0 n) ls) (mchk_channels c0 n) in
@@ -211,7 +214,7 @@ Theorem C15_rollback_after_reload_multi_channel : forall (K : Num) (L : Libm K) 
        exists c2 ls2, mc_run L strm ps f mp d n cb (skipn j cs) ck idxj = Ok (c2, idx', ls2) /\
          mchk_eqv c c2 /\ Forall2 (log_eqv _ _ mchk_eqv) (skipn j ls) ls2 /\
          ser_mchk digits10 c2 = ser_mchk digits10 c).
-Proof. exact (@c15_mc_after_reload). Qed.
+Proof. exact (@c15_mc_after_reload_wf). Qed.
 Print Assumptions C15_rollback_after_reload_multi_channel.
 
 (** histories *)
